@@ -1073,6 +1073,7 @@ impl Worker {
                     AOp::Age { .. } => ("ENV", "ENV"),
                 };
                 let mut deviates = false;
+                let mut c09_solo = false;
                 if let Err(e) = &resp_ok {
                     deviates = true;
                     // an urgency-only mismatch belongs to C12
@@ -1080,6 +1081,10 @@ impl Worker {
                     let mon = if urgency_only { "C12" } else { mon_resp };
                     if self.mon(mon) {
                         find!(mon, i, if urgency_only { "urgency" } else { "response" }, opd.clone(), "{e}");
+                    } else if self.mon("C09") && self.params.solo_runs && !urgency_only && node.steps.iter().any(|s| s.aop.client() != aop.client()) {
+                        // a wrong answer is C09's business when other clients' requests made it
+                        // wrong: decided below by running this client's requests alone
+                        c09_solo = true;
                     } else {
                         stats.collateral += 1;
                     }
@@ -1250,8 +1255,29 @@ impl Worker {
                     t_raws[i] = Some((r.clone(), raw, self.suts[i].tab.clone()));
                 }
 
+                if c09_solo {
+                    let c = aop.client();
+                    stats.eval("C09");
+                    stats.solo_runs += 1;
+                    self.suts[i].reset();
+                    let mut m = Model::new(self.params.cfg);
+                    for st in node.steps.iter().filter(|s| s.aop.client() == c) {
+                        let _ = exec(&mut self.suts[i], &m, &st.sop, st.new_sid);
+                        if let SymOp::AddVersion { c, .. } = &st.sop {
+                            m.clients.entry(*c).or_default();
+                        }
+                    }
+                    let alone = exec(&mut self.suts[i], &m, &sop, new_sid);
+                    if alone != r {
+                        find!("C09", i, "interference", opd.clone(),
+                            "{} answered {:?} after other clients' requests, but {:?} when client {} ran alone (same requests of its own before it)",
+                            aop.show(), r, alone, (b'A' + c) as char);
+                    } else {
+                        stats.collateral += 1;
+                    }
+                }
                 // restore unless provably unchanged
-                let unchanged = d2.clients == sts[i].dump.clients && d2.versions == sts[i].dump.versions;
+                let unchanged = !c09_solo && d2.clients == sts[i].dump.clients && d2.versions == sts[i].dump.versions;
                 if !unchanged {
                     self.restore(i, node, &mut sts[i]);
                 } else {
